@@ -32,6 +32,20 @@ type asAction struct {
 
 type asScript map[int][]asAction // trigger -> actions
 
+type asEv0 struct{ Pid int }
+type asEv1 struct{ Pid int }
+type asEv2 struct{ Pid int }
+
+func asEvent(ty, pid int) any {
+	switch ty {
+	case 0:
+		return asEv0{pid}
+	case 1:
+		return asEv1{pid}
+	}
+	return asEv2{pid}
+}
+
 type asUserMsg struct {
 	ID int
 	K  int
@@ -67,6 +81,10 @@ type asEngine struct {
 	viol        string
 	fixedLaunch bool
 	// monitors
+	expSubs       map[string]int          // "ty@path" -> cid, the harness's own subscription bookkeeping
+	pubExpect     map[int]map[int]bool    // publication -> expected subscriber cids
+	pubGot        map[int]map[int]int     // publication -> deliveries per cid
+	nextPub       int
 	failedCount   map[int]int
 	decided       map[int]int
 	escalated     map[int]int
@@ -221,6 +239,12 @@ func (e *asEngine) trigger(c *asCtx, ctx vivid.ActorContext) (int, int, bool) {
 		return 3, 0, true
 	case *asUserMsg:
 		return 100 + m.K, m.ID, true
+	case asEv0:
+		return 200, m.Pid, true
+	case asEv1:
+		return 201, m.Pid, true
+	case asEv2:
+		return 202, m.Pid, true
 	}
 	return 0, 0, false
 }
@@ -262,8 +286,11 @@ func (e *asEngine) behave(c *asCtx, ctx vivid.ActorContext, sid int) {
 	}
 	e.events = append(e.events, fmt.Sprintf("seen:%d:%d:%d", c.cid, c.inc, trig))
 	e.seen[c.cid] = append(e.seen[c.cid], fmt.Sprintf("%d:%d", c.inc, trig))
-	if trig >= 100 {
+	if trig >= 100 && trig < 200 {
 		e.markUser(mid, 1)
+	}
+	if trig >= 200 {
+		e.eventDelivered(c, trig-200, mid)
 	}
 	e.lifecycleMonitor(c, trig)
 	for _, a := range e.scripts[sid][trig] {
@@ -289,7 +316,7 @@ func (e *asEngine) behave(c *asCtx, ctx vivid.ActorContext, sid int) {
 			ctx.Kill(e.target(c, ctx, a.t), a.n == 1, "scripted")
 		case "stash":
 			ctx.Stash()
-			if trig >= 100 {
+			if trig >= 100 && trig < 200 {
 				e.sentUser[mid] = 3
 			}
 		case "unstash":
@@ -307,6 +334,38 @@ func (e *asEngine) behave(c *asCtx, ctx vivid.ActorContext, sid int) {
 			ctx.Become(func(cx vivid.ActorContext) { e.behave(c, cx, sid) })
 		case "unbecome":
 			ctx.UnBecome()
+		case "sub":
+			e.evHist["es-sub"]++
+			ctx.EventStream().Subscribe(ctx, asEvent(a.n, 0))
+			e.expSubs[fmt.Sprintf("%d@%s", a.n, c.path)] = c.cid
+		case "unsub":
+			e.evHist["es-unsub"]++
+			ctx.EventStream().Unsubscribe(ctx, asEvent(a.n, 0))
+			delete(e.expSubs, fmt.Sprintf("%d@%s", a.n, c.path))
+		case "unsuball":
+			e.evHist["es-unsuball"]++
+			ctx.EventStream().UnsubscribeAll(ctx)
+			for k := range e.expSubs {
+				if strings.HasSuffix(k, "@"+c.path) {
+					delete(e.expSubs, k)
+				}
+			}
+		case "pub":
+			e.nextPub++
+			// the subscribers at the time of publication, by the harness's own bookkeeping
+			exp := map[int]bool{}
+			for k, cid := range e.expSubs {
+				if strings.HasPrefix(k, fmt.Sprintf("%d@", a.n)) {
+					exp[cid] = true
+				}
+			}
+			e.pubExpect[e.nextPub] = exp
+			e.pubGot[e.nextPub] = map[int]int{}
+			e.evHist["es-pub"]++
+			if len(exp) > 0 {
+				e.evHist["es-pub-with-subscribers"]++
+			}
+			ctx.EventStream().Publish(ctx, asEvent(a.n, e.nextPub))
 		}
 	}
 }
@@ -403,6 +462,12 @@ func parseAsScript(body string) (asScript, bool) {
 				return nil, false
 			}
 			trig = 100 + k
+		case strings.HasPrefix(t, "e"):
+			k, err := strconv.Atoi(t[1:])
+			if err != nil {
+				return nil, false
+			}
+			trig = 200 + k
 		default:
 			return nil, false
 		}
@@ -448,6 +513,10 @@ func parseAsAction(t string) (asAction, bool) {
 		return asAction{kind: p[0]}, len(p) == 1
 	case p[0] == "unstash" && len(p) == 2:
 		return asAction{kind: "unstash", n: atoi(p[1])}, true
+	case (p[0] == "sub" || p[0] == "unsub" || p[0] == "pub") && len(p) == 2:
+		return asAction{kind: p[0], n: atoi(p[1])}, true
+	case p[0] == "unsuball" && len(p) == 1:
+		return asAction{kind: "unsuball"}, true
 	case (p[0] == "watch" || p[0] == "unwatch") && len(p) == 2:
 		return asAction{kind: p[0], t: p[1]}, true
 	case p[0] == "become" && len(p) == 2:
@@ -494,6 +563,7 @@ func (e *asEngine) reset(fixedLaunch bool) string {
 	e.sentUser = map[int]int{}
 	e.killedEvents = map[int]int{}
 	e.failedCount, e.decided, e.escalated = map[int]int{}, map[int]int{}, map[int]int{}
+	e.expSubs, e.pubExpect, e.pubGot, e.nextPub = map[string]int{}, map[int]map[int]bool{}, map[int]map[int]int{}, 0
 	e.pendingLaunch = map[int]bool{}
 	if e.evHist == nil {
 		e.evHist = map[string]int{}
@@ -626,7 +696,17 @@ func (e *asEngine) digest() string {
 		dl = strings.Join(d, ",")
 	}
 	e.events = nil
-	return fmt.Sprintf("ev=%s | %s | reg[%s] dl[%s]", ev, strings.Join(parts, " "), strings.Join(reg, ","), dl)
+	bySubs, byTypes := e.sys.VerifSubscriptions()
+	if strings.Join(bySubs, ",") != strings.Join(byTypes, ",") && e.viol == "" {
+		e.viol = fmt.Sprintf("ES-TABLES: the two event-stream tables disagree: by type %v, by subscriber %v", bySubs, byTypes)
+	}
+	var subs []string
+	for _, x := range bySubs {
+		x = strings.Replace(x, "engines.asEv", "", 1)
+		subs = append(subs, x)
+	}
+	sort.Strings(subs)
+	return fmt.Sprintf("ev=%s | %s | reg[%s] dl[%s] subs[%s]", ev, strings.Join(parts, " "), strings.Join(reg, ","), dl, strings.Join(subs, ","))
 }
 
 func (e *asEngine) extTarget(spec string) vivid.ActorRef {
@@ -761,6 +841,11 @@ func (e *asEngine) eventMonitors() {
 			cid, _ := strconv.Atoi(p[1])
 			e.killedEvents[cid]++
 			c := e.ctxs[cid]
+			for k, sc := range e.expSubs {
+				if sc == cid || strings.HasSuffix(k, "@"+c.path) {
+					delete(e.expSubs, k)
+				}
+			}
 			if e.killedEvents[cid] > 1 && !c.ctx.VerifState().Zombie && e.viol == "" {
 				e.viol = fmt.Sprintf("KILL-ONCE: context %d (%s) was reported terminated %d times", cid, c.path, e.killedEvents[cid])
 			}
@@ -847,6 +932,19 @@ func (e *asEngine) quiescenceMonitor() string {
 			return fmt.Sprintf("LOST-USER-MESSAGE(parked): user message %d is unsettled at quiescence: %s", id, where)
 		}
 	}
+	// C19: every subscriber (at publication time) that is still alive and not paused has received the event
+	for pid, exp := range e.pubExpect {
+		for cid := range exp {
+			c := e.ctxs[cid]
+			if c.ctx == nil {
+				continue
+			}
+			st := c.ctx.VerifState()
+			if st.State == 0 && !st.Zombie && !e.mailboxOf(c).VerifState().Paused && e.pubGot[pid][cid] == 0 && c.inc == 0 && !zombie {
+				return fmt.Sprintf("EVENT-MISSED: context %d (%s) was subscribed when publication %d was made, is alive, and never received it", cid, c.path, pid)
+			}
+		}
+	}
 	// C08: the strategy is consulted at most once per failure (per level of escalation)
 	for cid, n := range e.decided {
 		if max := e.failedCount[cid] + e.escalated[cid]; n > max {
@@ -879,6 +977,21 @@ func (e *asEngine) quiescenceMonitor() string {
 		}
 	}
 	return ""
+}
+
+// eventDelivered: C19 — an event is delivered at most once per subscriber, and only to actors that
+// were subscribed to its type when it was published.
+func (e *asEngine) eventDelivered(c *asCtx, ty, pid int) {
+	if e.viol != "" || e.pubGot[pid] == nil {
+		return
+	}
+	e.pubGot[pid][c.cid]++
+	if e.pubGot[pid][c.cid] > 1 {
+		e.viol = fmt.Sprintf("EVENT-TWICE: publication %d of type %d was delivered %d times to context %d (%s)", pid, ty, e.pubGot[pid][c.cid], c.cid, c.path)
+	}
+	if !e.pubExpect[pid][c.cid] {
+		e.viol = fmt.Sprintf("EVENT-NOT-SUBSCRIBED: publication %d of type %d was delivered to context %d (%s), which was not subscribed to that type when it was published", pid, ty, c.cid, c.path)
+	}
 }
 
 // lifecycleMonitor: C05 on the real trace — per incarnation OnLaunch first, nothing after own OnKilled,
@@ -946,6 +1059,7 @@ func (e *asEngine) Generate(c *Ctx) {
 		n = 5000
 	}
 	e.supervisionMatrix(c)
+	e.eventStreamScenarios(c)
 	for i := 0; i < n; i++ {
 		e.randomScenario(c)
 	}
@@ -959,13 +1073,14 @@ func (e *asEngine) randomScenario(c *Ctx) {
 	c.Case("reset 1")
 	// scripts 1..4: random rule tables
 	names := []string{"a", "b", "k"}
+	esHeavy := r.Chance(1, 3) // a third of the scenarios concentrate on the event stream
 	targets := []string{"self", "parent", "sender", "c:k", "c:a", "p:/a", "p:/a/k", "p:/b", "self", "sender", "c:k"}
 	if r.Chance(1, 4) {
 		targets = append(targets, "p:/zz") // a path that never exists (falls back to the root mailbox)
 	}
 	for sid := 1; sid <= 4; sid++ {
 		var rules []string
-		for _, trig := range []string{"launch", "u1", "u2", "u3", "kill", "killed", "okilled"} {
+		for _, trig := range []string{"launch", "u1", "u2", "u3", "kill", "killed", "okilled", "e0", "e1", "e2"} {
 			if r.Chance(2, 5) {
 				continue
 			}
@@ -988,6 +1103,17 @@ func (e *asEngine) randomScenario(c *Ctx) {
 					acts = append(acts, fmt.Sprintf("unstash.%d", r.Intn(3)))
 				case x < 18:
 					acts = append(acts, "watch."+targets[r.Intn(len(targets))])
+				case x == 19 || (esHeavy && x >= 10):
+					switch y := r.Intn(10); {
+					case y < 4:
+						acts = append(acts, fmt.Sprintf("sub.%d", r.Intn(3)))
+					case y < 6:
+						acts = append(acts, fmt.Sprintf("unsub.%d", r.Intn(3)))
+					case y < 7:
+						acts = append(acts, "unsuball")
+					default:
+						acts = append(acts, fmt.Sprintf("pub.%d", r.Intn(3)))
+					}
 				case x < 19:
 					acts = append(acts, fmt.Sprintf("become.%d", 1+r.Intn(4)))
 				}
@@ -1119,5 +1245,40 @@ func (e *asEngine) supervisionMatrix(c *Ctx) {
 				}
 			}
 		}
+	}
+}
+
+// eventStreamScenarios: three subscribers driven through random sequences of Subscribe / Unsubscribe /
+// UnsubscribeAll / Publish for three event types, with a kill and a supervised restart in between (C19).
+func (e *asEngine) eventStreamScenarios(c *Ctx) {
+	n := 60
+	if c.Thorough() {
+		n = 3000
+	}
+	for i := 0; i < n; i++ {
+		c.Case("reset 1")
+		c.Do("script 1 u1:sub.0;u2:sub.1;u3:sub.2;u4:unsub.0;u5:unsub.1;u6:unsub.2;u7:unsuball;u8:pub.0;u9:pub.1;u10:pub.2;u11:panic;e0:;e1:;e2:")
+		c.Do("script 2 launch:spawn.x.1.0.-.0,spawn.y.1.0.-.0,spawn.z.1.0.-.0")
+		c.Do("spawn p 2 1 1 0") // supervisor: one-for-one, restart
+		e.drain(c, 30)
+		steps := 8 + c.Rng.Intn(25)
+		for s := 0; s < steps; s++ {
+			who := []string{"x", "y", "z"}[c.Rng.Intn(3)]
+			switch x := c.Rng.Intn(40); {
+			case x == 0:
+				c.Do("kill p:/p/" + who + " 0")
+			case x == 1:
+				c.Do("tell p:/p/" + who + " 11") // fails -> restarted by /p; subscriptions must survive
+			default:
+				c.Do(fmt.Sprintf("tell p:/p/%s %d", who, 1+c.Rng.Intn(10)))
+			}
+			if c.Rng.Chance(2, 3) {
+				e.drain(c, 3)
+			}
+		}
+		e.drain(c, 200)
+		c.Do("check")
+		c.R.Nontrivial()
+		c.R.Hit("es-scenario")
 	}
 }
